@@ -26,6 +26,7 @@ type Config struct {
 	Solver     string
 	TimeoutMs  int
 	MaxSteps   int
+	Logic      string
 	MaxBack    int
 	Workers    int
 	MaxPaths   int
@@ -476,7 +477,7 @@ func (e *Engine) explore(fnName string, pkg *ssa.Package) (*HarnessStats, error)
 		go func() {
 			defer wg.Done()
 			in := e.newInterp()
-			in.solver = newSolver(e.cfg.Solver, e.cfg.TimeoutMs)
+			in.solver = newSolver(e.cfg.Solver, e.cfg.TimeoutMs, e.cfg.Logic)
 			defer func() {
 				mu.Lock()
 				e.mergeSolverStats(in.solver)
